@@ -568,7 +568,7 @@ func (e *keeperEnv) replay(k *kind, what string, claims []claim, order []int, sh
 		ps = append(ps, o.GetPower().String()+":"+hx.HexS(e.exts[i]))
 	}
 	out.Emit(fmt.Sprintf("cfg %s %s", total.String(), strings.Join(ps, " ")), "ok")
-	out.Emit(fmt.Sprintf("last %d", nonce-1), "ok")
+	out.Emit(fmt.Sprintf("last %d %d", nonce-1, e.k.GetLastObservedBlockHeight(ctx).ExternalBlockHeight), "ok")
 	replay := []string{fmt.Sprintf("# real keeper (%s), %d oracles of power %v, last observed nonce %d; votes in order:", e.chain, len(e.oracles), e.powers, nonce-1)}
 	votes := map[int]claim{}
 	observedBefore := map[string]bool{}
@@ -654,7 +654,7 @@ func (e *keeperEnv) replay(k *kind, what string, claims []claim, order []int, sh
 				r.violate(fmt.Sprintf("real keeper: state written by the handler differs from the executed claim in %s: %s", k.name, what), rp)
 			}
 		}
-		out.Emit(line, fmt.Sprintf("%s last=%d exec=%s pend=%s atts=%s", kindR, lastObs, execHash, e.pendOf(ctx, nonce), e.attTable(ctx, nonce)))
+		out.Emit(line, fmt.Sprintf("%s last=%d h=%d exec=%s pend=%s atts=%s", kindR, lastObs, e.k.GetLastObservedBlockHeight(ctx).ExternalBlockHeight, execHash, e.pendOf(ctx, nonce), e.attTable(ctx, nonce)))
 	}
 	// (5) tallied together only if they agree: in the final table of the nonce, the voters of every attestation (observed
 	// or not) submitted claims with one and the same effect
